@@ -14,4 +14,5 @@ ASSUMPTIONS = [
     "nfs41: OPEN(CLAIM_PREVIOUS) by an open-owner that has open state for the file with delegate type NONE may be granted as a further OPEN of that owner (what the code documents) or refused; in every other case it must be refused with NFS4ERR_RECLAIM_BAD or NFS4ERR_NO_GRACE (the server has no grace period); the four delegation claims and share_deny != NONE must be refused (any of the statuses the code or RFC 8881 18.16 name) with leaf counters, file count, root change ID and state record counts unchanged",
     "nfs41: PUTFH of a file that is neither linked nor open is expected to fail with NFS4ERR_STALE: the property text only requires reachability while open; NFS4ERR_STALE afterwards is what the wired NFSStatefulHandleAllocator.ResolveHandle and OpenedFilesPool.Resolve document for a handle they no longer track",
     "nfs41: state-ID 'other' values are only unique per client incarnation, so a foreign state ID is judged in the requesting client's own namespace (RFC 8881 8.2.4)",
+    "nfs41: the seqid of a state ID can only reach its wrap-around through 2^32 state-changing operations; the verif-tagged hook VerifSetStateIDSeqID places the seqid of a live open or lock state ID at 2^32-3..2^32-1 while no request of that client is in flight and changes nothing else; from there the model follows what the code documents: incrementSeqID goes from 2^32-1 to 1 (RFC 8881 8.2.2: zero is reserved for 'most recent'), nfs41CompareStateSeqID judges old/future by 32 bit serial-number arithmetic (a seqid the state ID had up to 2^31 bumps ago => NFS4ERR_OLD_STATEID, one it will have => NFS4ERR_BAD_STATEID)",
 ]
